@@ -226,6 +226,19 @@ def fold_union_spelling(a):
     return a
 
 
+def differ_beyond_union_spelling(chk, got, want):
+    """got / want: JSON texts (or lists of JSON texts) of canonical annotations.  True if they differ by more than the
+    `X | None` vs `Optional[X]` spelling that typing's interning makes unobservable (see `fold_union_spelling`)"""
+    if got == want:
+        return False
+    gl, wl = (got, want) if isinstance(got, list) else ([got], [want])
+    if len(gl) == len(wl) and all(json.dumps(fold_union_spelling(json.loads(g))) == json.dumps(fold_union_spelling(json.loads(w)))
+                                  for g, w in zip(gl, wl)):
+        chk.note("typing-interned-union-spelling")
+        return False
+    return True
+
+
 def is_closed(a):
     return all(x[0] not in ("tv", "self") for x in walk(a))
 
@@ -1357,7 +1370,7 @@ def eval_world(chk, drv, spec, n_payloads, corr_fail, label=None):
                         mg = [x for x in mg if x[1] != LF("None")]
                     want_g = [json.dumps(W.canon(W.real(strip_nr(a)))) for _, a in mg]
                     got_g = [json.dumps(W.canon(t)) for t in rs[1]]
-                    if want_g != got_g:
+                    if differ_beyond_union_spelling(chk, got_g, want_g):
                         corr_fail.append(("RESOLVE", gcase, json.dumps(got_g), rmg))
 
             # ---------- correspondence: RESOLVE (types bound into the real hook)
@@ -1382,7 +1395,7 @@ def eval_world(chk, drv, spec, n_payloads, corr_fail, label=None):
                                 continue
                             want = json.dumps(W.canon(W.real(strip_nr(a))))
                             got = json.dumps(W.canon(real_t[k]))
-                            if want != got:
+                            if differ_beyond_union_spelling(chk, got, want):
                                 corr_fail.append(("RESOLVE", dict(case0, op="resolve"), "%s: real=%s model(normalised)=%s" % (fn, got, want), rm))
                                 break
                     else:
@@ -1413,7 +1426,7 @@ def eval_world(chk, drv, spec, n_payloads, corr_fail, label=None):
                 if td and rmu and rmu[0][1] != "late":
                     # the TypedDict generator first probes for an all-identity class and stops at the first handler that is not
                     got_u = got_u[1:]
-                if got_u != want_u:
+                if differ_beyond_union_spelling(chk, got_u, want_u):
                     corr_fail.append(("RESOLVEUN", dict(case0, op="resolve"), json.dumps(got_u), json.dumps(want_u)))
 
             # ---------- correspondence: MANGLE (function name of the generated hook)
